@@ -29,8 +29,29 @@ func KeySessions(a, b *Node) error {
 	return KeyPair(sa.Encryption(), sb.Encryption())
 }
 
-// KeyPair runs the real key exchange between two encryption sessions.
+// KeySessionsHello is KeySessions with the clean-up pattern of the end-to-end
+// hello exchange: only the initiator discards its temporary keys (the router's
+// hello request handler never calls InitCleanup), whereas both ends of a link
+// handshake do.
+func KeySessionsHello(a, b *Node) error {
+	if err := Introduce(a, b); err != nil {
+		return err
+	}
+	sa := a.State().GetSession(b.Identity().IP)
+	sb := b.State().GetSession(a.Identity().IP)
+	if sa == nil || sb == nil {
+		return fmt.Errorf("no session")
+	}
+	return keyPair(sa.Encryption(), sb.Encryption(), false)
+}
+
+// KeyPair runs the real key exchange between two encryption sessions (both ends
+// discard their temporary keys afterwards, as the link handshake does).
 func KeyPair(client, server *state.EncryptionSession) error {
+	return keyPair(client, server, true)
+}
+
+func keyPair(client, server *state.EncryptionSession, serverCleans bool) error {
 	k, t, err := client.InitKeyClientStart()
 	if err != nil {
 		return err
@@ -43,6 +64,8 @@ func KeyPair(client, server *state.EncryptionSession) error {
 		return err
 	}
 	client.InitCleanup()
-	server.InitCleanup()
+	if serverCleans {
+		server.InitCleanup()
+	}
 	return nil
 }
